@@ -34,7 +34,7 @@ ASSUMPTIONS = ["data compared exactly as float32(saved data)", "frames have >= 3
                ".h5 files are checked through blimpy + h5py only (no independent HDF5 reader)"]
 PROBES = ["derived_of_loaded_frame_saved", "derived_after_get_waterfall_saved", "loaded_resaved", "copy_saved", "pickled_saved",
           "format_fil", "format_h5", "descending", "ascending", "clock_jump", "refsigproc_input", "helpers_checked", "sliced_saved",
-          "dedrifted_saved", "sibling_frames_alive"]
+          "dedrifted_saved", "sibling_frames_alive", "retimed_after_history"]
 
 
 def generate(rng, tier):
@@ -62,8 +62,11 @@ def generate(rng, tier):
             ops.append({"op": "inject", "fr": fr, "sig": F.gen_signal(rng, g, allow_box=True)})
         elif r < 0.72:
             ops.append({"op": "noise", "fr": fr})
-        elif r < 0.80:
+        elif r < 0.76:
             ops.append({"op": "clock_jump", "delta": rng.choice([3600.0, -7200.0, 86400.0 * 30])})
+        elif r < 0.80:
+            # the frame's start time is re-assigned, by the library's own Cadence(t_overwrite=True) or by the user
+            ops.append({"op": "retime", "fr": fr, "via": rng.choice(["cadence", "assign"]), "slew": rng.choice([0.0, 150.0, 3600.0])})
         else:
             ops.append({"op": "save", "fr": fr, "fmt": rng.choice(["fil", "fil", "h5", "h5b"])})
     ops.append({"op": "save", "fr": rng.randrange(0, 8), "fmt": rng.choice(["fil", "fil", "h5"])})
@@ -275,6 +278,16 @@ def execute(sc, ctx):
             elif kind == "noise":
                 fr.add_noise(5, 1, noise_type="gaussian")
                 h.append("noise")
+            elif kind == "retime":
+                if op["via"] == "cadence":
+                    lead = stg.Frame(fchans=fr.fchans, tchans=fr.tchans, df=fr.df, dt=fr.dt, fch1=fr.fch1, ascending=fr.ascending,
+                                     t_start=fr.t_start - 1000.0, seed=1)
+                    stg.Cadence([lead, fr], t_slew=op["slew"], t_overwrite=True)
+                    ctx.check(abs(fr.t_start - (lead.t_stop + op["slew"])) <= 1e-6, "retime", "C03/retime/cadence_did_not_set_start", "")
+                else:
+                    fr.t_start = fr.t_start + op["slew"] + 1.0
+                h.append("retimed")
+                ctx.hit("retimed_after_history" if [x for x in h if x in ("wf", "saved", "copy", "loaded")] else "retimed")
             elif kind == "save":
                 fmt = op["fmt"]
                 ext = "fil" if fmt == "fil" else "h5"
